@@ -4,6 +4,7 @@ use std::io::{self, Read, Write};
 mod data;
 mod names;
 mod coll;
+mod conn;
 mod resp;
 
 fn unhex(s: &str) -> Vec<u8> {
@@ -44,6 +45,7 @@ fn main() {
         "seq" => data::seq(&args[1..]),
         "typed" => data::typed(&args[1..]),
         "tag" => names::tag(&args[1..]),
+        "recv" => conn::recv(&args[1..]),
         "resp" => resp::resp(&args[1..]),
         "typedcount" => resp::typedcount(&args[1..]),
         "frame" => coll::frame(&args[1..]),
